@@ -1429,18 +1429,24 @@ impl<'a> Parser<'a> {
             return false;
         }
 
-        // Look ahead to find comma before ParenEnd
+        // Look ahead to find comma before ParenEnd. Only a comma directly inside these
+        // parentheses makes a tuple: commas of nested parentheses, blocks/records, arrays
+        // and lambda parameter lists belong to the inner construct.
         let mut depth = 0;
+        let mut in_lambda_params = false;
         for i in 1..MAX_LOOKAHEAD {
             match self.peek_ahead(i) {
-                Some(TokenKind::ParenBegin) => depth += 1,
-                Some(TokenKind::ParenEnd) => {
+                Some(TokenKind::ParenBegin | TokenKind::BlockBegin | TokenKind::ArrayBegin) => {
+                    depth += 1
+                }
+                Some(TokenKind::ParenEnd | TokenKind::BlockEnd | TokenKind::ArrayEnd) => {
                     if depth == 0 {
                         return false; // no comma found
                     }
                     depth -= 1;
                 }
-                Some(TokenKind::Comma) if depth == 0 => return true,
+                Some(TokenKind::LambdaArgBeginEnd) => in_lambda_params = !in_lambda_params,
+                Some(TokenKind::Comma) if depth == 0 && !in_lambda_params => return true,
                 None => return false,
                 _ => {}
             }
